@@ -859,8 +859,24 @@ func relevantAxioms(axioms, asserts []*Term) []*Term {
 		}
 	}
 	axFns := make([]map[string]bool, len(axioms))
+	// a quantified axiom with explicit triggers can only ever be instantiated when, for one of its triggers, every
+	// function symbol of the trigger occurs among the terms of the query: patFns[i] holds those symbol sets
+	patFns := make([][]map[string]bool, len(axioms))
 	for i, a := range axioms {
 		axFns[i] = fnsOf(a)
+		if a.op == "forall" && len(a.pats) > 0 {
+			for _, p := range a.pats {
+				fs := map[string]bool{}
+				for f := range fnsOf(p) {
+					if !strings.HasPrefix(f, "sym:") {
+						fs[f] = true
+					}
+				}
+				if len(fs) > 0 {
+					patFns[i] = append(patFns[i], fs)
+				}
+			}
+		}
 	}
 	used := make([]bool, len(axioms))
 	for changed := true; changed; {
@@ -870,10 +886,26 @@ func relevantAxioms(axioms, asserts []*Term) []*Term {
 				continue
 			}
 			hit := len(axFns[i]) == 0
-			for f := range axFns[i] {
-				if have[f] {
-					hit = true
-					break
+			if len(patFns[i]) > 0 {
+				for _, fs := range patFns[i] {
+					all := true
+					for f := range fs {
+						if !have[f] {
+							all = false
+							break
+						}
+					}
+					if all {
+						hit = true
+						break
+					}
+				}
+			} else {
+				for f := range axFns[i] {
+					if have[f] {
+						hit = true
+						break
+					}
 				}
 			}
 			if hit {
